@@ -27,6 +27,35 @@ theorem prefix_schedule_free (r : Rd) (h0 : r.avail = 0) (hf : r.failAt = none) 
     ∃ r', readPrefix r = .ok (r.data.take 65536, r') := by
   exact readPrefix_schedule_free r (Rd.ok_of_avail_zero r h0 hf)
 
+/-- … and the reader is left right behind the prefix, so that chaining the prefix back in front reproduces the stream. -/
+theorem prefix_then_rest (r : Rd) (h0 : r.avail = 0) (hf : r.failAt = none) :
+    ∃ r', readPrefix r = .ok (r.data.take 65536, r') ∧ r'.data = r.data.drop 65536 ∧ r'.failAt = none ∧
+      r'.avail ≤ r'.data.length := by
+  obtain ⟨r', he, hok, hd⟩ := readPrefix_ok_rest r (Rd.ok_of_avail_zero r h0 hf)
+  exact ⟨r', he, hd, hok.2, hok.1⟩
+
+/-- create_schedule_free: over any chunk schedule (first chunk of one byte, one byte at a time, …) `sfs create` computes
+    what it computes on the whole byte string: detection and decoding see the same bytes. -/
+theorem create_schedule_free (inflate3 : List Nat → Option (List Nat)) (decode : Container → List Nat → Option CallSet)
+    (a : CreateArgs) (data sched : List Nat) :
+    createFromRd inflate3 decode a { data := data, sched := sched, avail := 0, failAt := none } =
+      createFromBytes inflate3 decode a data := by
+  obtain ⟨r', he, hok, hd⟩ :=
+    readPrefix_ok_rest { data := data, sched := sched, avail := 0, failAt := none } (Rd.ok_of_avail_zero _ rfl rfl)
+  obtain ⟨r'', he2, _⟩ := Rd.readToEnd_schedule_free (r'.data.length + 1) r' hok (Nat.lt_succ_self _)
+  unfold createFromRd createFromBytes
+  rw [he]
+  dsimp only
+  cases detectContainer inflate3 (List.take 65536 data) with
+  | error e => rfl
+  | ok c =>
+    dsimp only
+    rw [he2]
+    dsimp only
+    rw [hd]
+    dsimp only
+    rw [List.take_append_drop]
+
 /-- Encoders of the four containers, abstractly: what they must satisfy. -/
 structure Codec where
   inflate3 : List Nat → Option (List Nat)
